@@ -326,6 +326,9 @@ PROPS["C18"] = {
         Leg("wrap", "c18", "^TestWrap$", engine="enumerate", rapid=False, shards=(1, 1), tests=["wrap"]),
         Leg("long", "c18", "^TestLong$", checks=(1500, 20000), shards=(1, 16), tests=["long"]),
         Leg("concurrent", "c18", "^TestConcurrent$", engine="sched", checks=(400, 12000), shards=(2, 16), tests=["concurrent"]),
+        Leg("stress", "c18", "^TestStress$", engine="sched", checks=(300, 6000), shards=(2, 16), tests=["stress"], replay_attempts=10),
+        Leg("stress-yield-race", "c18", "^TestStress$", engine="sched", race=True, instrument=["apps/proxy/circular_queue/circular_queue.go"],
+            checks=(60, 1500), shards=(2, 8), tests=["stress"], replay_attempts=10),
         Leg("concurrent-race", "c18", "^TestConcurrent$", engine="sched", race=True, checks=(250, 6000), shards=(2, 16), tests=["concurrent"]),
         Leg("concurrent-yield-race", "c18", "^TestConcurrent$", engine="sched", race=True, instrument=["apps/proxy/circular_queue/circular_queue.go"],
             checks=(250, 6000), shards=(2, 16), tests=["concurrent"]),
